@@ -2,6 +2,7 @@
 // connection while a call runs (see DESIGN.md 13.14, spec/Contention.tla).  Shared by libdriver and trackdriver.
 #pragma once
 #include <sqlite3.h>
+#include <unistd.h>
 
 #include <algorithm>
 #include <cstring>
@@ -133,4 +134,61 @@ inline lock_attempt_result lock_attempt(sqlite3* conn, int k, int want, const ch
     res.next_want = lvl == 4 ? 2 : lvl == 2 ? 1 : 0;
     return res;
 }
+
+// ---------------------------------------------------------------------------------------------------------------
+// Crash points below the statement level: the process dies right before the n-th file-modifying system call that
+// SQLite's unix VFS issues (pwrite / write / ftruncate / unlink - journal creation, page writes, journal deletion =
+// the commit point), installed through the VFS's own xSetSystemCall interface.  Only meaningful in a forked child.
+namespace syscrash
+{
+inline int& countdown()
+{
+    static int n = 0;
+    return n;
+}
+inline void tick()
+{
+    int& n = countdown();
+    if (n > 0 && --n == 0)
+        _exit(shim::CRASH_EXIT);
+}
+typedef ssize_t (*pwrite_fn)(int, const void*, size_t, off_t);
+typedef ssize_t (*write_fn)(int, const void*, size_t);
+typedef int (*ftruncate_fn)(int, off_t);
+typedef int (*unlink_fn)(const char*);
+inline pwrite_fn& real_pwrite() { static pwrite_fn f = nullptr; return f; }
+inline pwrite_fn& real_pwrite64() { static pwrite_fn f = nullptr; return f; }
+inline write_fn& real_write() { static write_fn f = nullptr; return f; }
+inline ftruncate_fn& real_ftruncate() { static ftruncate_fn f = nullptr; return f; }
+inline unlink_fn& real_unlink() { static unlink_fn f = nullptr; return f; }
+inline ssize_t my_pwrite(int fd, const void* b, size_t n, off_t o) { tick(); return real_pwrite()(fd, b, n, o); }
+inline ssize_t my_pwrite64(int fd, const void* b, size_t n, off_t o) { tick(); return real_pwrite64()(fd, b, n, o); }
+inline ssize_t my_write(int fd, const void* b, size_t n) { tick(); return real_write()(fd, b, n); }
+inline int my_ftruncate(int fd, off_t o) { tick(); return real_ftruncate()(fd, o); }
+inline int my_unlink(const char* p) { tick(); return real_unlink()(p); }
+// die right before the n-th modifying system call from now on (0 = never)
+inline void arm(int n)
+{
+    sqlite3_vfs* v = sqlite3_vfs_find(nullptr);
+    if (!real_unlink() && v && v->xGetSystemCall && v->xSetSystemCall)
+    {
+        real_pwrite() = (pwrite_fn)v->xGetSystemCall(v, "pwrite");
+        real_pwrite64() = (pwrite_fn)v->xGetSystemCall(v, "pwrite64");
+        real_write() = (write_fn)v->xGetSystemCall(v, "write");
+        real_ftruncate() = (ftruncate_fn)v->xGetSystemCall(v, "ftruncate");
+        real_unlink() = (unlink_fn)v->xGetSystemCall(v, "unlink");
+        if (real_pwrite())
+            v->xSetSystemCall(v, "pwrite", (sqlite3_syscall_ptr)my_pwrite);
+        if (real_pwrite64())
+            v->xSetSystemCall(v, "pwrite64", (sqlite3_syscall_ptr)my_pwrite64);
+        if (real_write())
+            v->xSetSystemCall(v, "write", (sqlite3_syscall_ptr)my_write);
+        if (real_ftruncate())
+            v->xSetSystemCall(v, "ftruncate", (sqlite3_syscall_ptr)my_ftruncate);
+        if (real_unlink())
+            v->xSetSystemCall(v, "unlink", (sqlite3_syscall_ptr)my_unlink);
+    }
+    countdown() = n;
+}
+}  // namespace syscrash
 }  // namespace vh
